@@ -600,6 +600,12 @@ class MetaClass(object):
             
         # set all named arguments
         for name, value in kwargs.items():
+            # attribute names are case insensitive
+            for attr, _ in self.attributes:
+                if attr.upper() == name.upper():
+                    name = attr
+                    break
+            
             if name not in self.referential_attributes:
                 setattr(inst, name, value)
             else:
